@@ -12,6 +12,10 @@ theorem measKeys_head : measKeys = walMeasKey :: measKeys.tail := by decide
 theorem dbKeys_head : dbKeys = walDbKey :: dbKeys.tail := by decide
 theorem walKeys_removed : removedKeys.contains walDbKey = true ∧ removedKeys.contains walMeasKey = true := by decide
 theorem walKeys_ne : (walMeasKey == walDbKey) = false := by decide
+theorem walKeys_last : walKeysLast = true := by decide
+theorem replay_int : replayAcceptsIntMeas = true := by decide
+/-- every key the row callback removes is one the live path does not store either ('_' prefix) and is not "time" -/
+theorem removed_invisible : removedKeys.all (fun k => !visible k && k != kTime) = true := by decide
 
 /-! ## the carve-outs -/
 
@@ -31,7 +35,6 @@ def nodupKeys : List Str → Bool
 def carveRows (san : Str → Str) (db meas : Str) (cols : Cols) : Bool :=
   db != [] && meas != [] &&
   nodupKeys (cols.map (·.1)) &&
-  cols.all (fun p => !removedKeys.contains p.1) &&
   cols.all (fun p => p.2.length == numRows cols) &&
   (match cols.lookup kTime with
    | some tc => tc.all stableVal
@@ -39,8 +42,8 @@ def carveRows (san : Str → Str) (db meas : Str) (cols : Cols) : Bool :=
   cols.all (fun p => p.2.all fun v => sanVal san v == v)
 
 /-- raw WAL entries (top-level MessagePack columnar) -/
-def carveRaw (db : Str) (m : MVal) (cols : Cols) : Bool :=
-  db != [] && (match m with | .str _ => true | _ => false) && hasKey kTime cols
+def carveRaw (db : Str) (_m : MVal) (cols : Cols) : Bool :=
+  db != [] && hasKey kTime cols
 
 def carve (san : Str → Str) : Req → Bool
   | .raw db m cols => carveRaw db m cols
@@ -62,13 +65,48 @@ theorem nodupKeys_cons {k : Str} {ks : List Str} (h : nodupKeys (k :: ks) = true
     ks.contains k = false ∧ nodupKeys ks = true := by
   simpa [nodupKeys] using h
 
-theorem recSet_fresh (r : Rec) (k : Str) (v : Val) (h : ∀ q ∈ r, q.1 ≠ k) : recSet r k v = r ++ [(k, v)] := by
-  unfold recSet
-  have : r.any (fun p => p.1 == k) = false := by
-    simp only [List.any_eq_false]
-    intro q hq
-    simpa using h q hq
-  simp [this]
+theorem recSet_fresh : ∀ (r : Rec) (k : Str) (v : Val), (∀ q ∈ r, q.1 ≠ k) → recSet r k v = r ++ [(k, v)]
+  | [], _, _, _ => rfl
+  | (a, b) :: r, k, v, h => by
+    have hp : (a == k) = false := by simpa using h (a, b) (List.mem_cons_self ..)
+    simp only [recSet, hp, Bool.false_eq_true, if_false, List.cons_append]
+    rw [recSet_fresh r k v (fun q hq => h q (List.mem_cons_of_mem _ hq))]
+
+theorem lookup_recSet_same : ∀ (r : Rec) (k : Str) (v : Val), (recSet r k v).lookup k = some v
+  | [], k, v => by simp [recSet, List.lookup_cons]
+  | (a, b) :: r, k, v => by
+    by_cases hp : (a == k) = true
+    · simp [recSet, hp, List.lookup_cons]
+    · have hp' : (a == k) = false := by simpa using hp
+      have hk : (k == a) = false := by
+        have : a ≠ k := by simpa using hp'
+        simpa using fun h => this h.symm
+      simp only [recSet, hp', Bool.false_eq_true, if_false, List.lookup_cons, hk]
+      exact lookup_recSet_same r k v
+
+theorem lookup_recSet_other : ∀ (r : Rec) (k k' : Str) (v : Val), (k' == k) = false →
+    (recSet r k v).lookup k' = r.lookup k'
+  | [], k, k', v, h => by simp [recSet, List.lookup_cons, h]
+  | (a, b) :: r, k, k', v, h => by
+    by_cases hp : (a == k) = true
+    · have hpk : a = k := by simpa using hp
+      subst hpk
+      simp only [recSet, hp, if_true, List.lookup_cons, h]
+    · have hp' : (a == k) = false := by simpa using hp
+      simp only [recSet, hp', Bool.false_eq_true, if_false, List.lookup_cons]
+      rw [lookup_recSet_other r k k' v h]
+
+theorem filter_recSet_removed (keep : Str → Bool) : ∀ (r : Rec) (k : Str) (v : Val), keep k = false →
+    (recSet r k v).filter (fun q => keep q.1) = r.filter (fun q => keep q.1)
+  | [], k, v, h => by simp [recSet, h]
+  | (a, b) :: r, k, v, h => by
+    by_cases hp : (a == k) = true
+    · have hpk : a = k := by simpa using hp
+      subst hpk
+      simp [recSet, List.filter_cons, h]
+    · have hp' : (a == k) = false := by simpa using hp
+      simp only [recSet, hp', Bool.false_eq_true, if_false, List.filter_cons]
+      rw [filter_recSet_removed keep r k v h]
 
 theorem setAll_fresh : ∀ (kvs : List (Str × Val)) (r : Rec), nodupKeys (kvs.map (·.1)) = true →
     (∀ p ∈ kvs, ∀ q ∈ r, q.1 ≠ p.1) → setAll r kvs = r ++ kvs
@@ -223,62 +261,100 @@ theorem hasKey_of_lookup (cols : Cols) (k : Str) (v : List Val) (h : cols.lookup
   simp only [List.any_eq_true]
   exact ⟨(k, v), lookup_mem cols k v h, by simp⟩
 
-theorem mkRec_eq (db meas : Str) (cols : Cols) (i : Nat)
-    (hnd : nodupKeys (cols.map (·.1)) = true)
-    (hres : ∀ p ∈ cols, removedKeys.contains p.1 = false) :
-    mkRec db meas cols i =
-      [(walDbKey, .str db), (walMeasKey, .str meas)] ++ cols.map (fun p => (p.1, p.2.getD i .null)) := by
-  unfold mkRec
-  apply setAll_fresh
-  · have : (cols.map fun p => (p.1, p.2.getD i Val.null)).map (·.1) = cols.map (·.1) := by
-      simp [List.map_map]
-    rw [this]; exact hnd
-  · intro p' hp' q hq
-    simp only [List.mem_map] at hp'
-    obtain ⟨p, hp, rfl⟩ := hp'
-    have hr := hres p hp
-    simp only [List.mem_cons, List.mem_nil_iff, or_false] at hq
-    rcases hq with rfl | rfl
-    · intro heq
-      simp only at heq
-      rw [← heq, walKeys_removed.1] at hr
-      cases hr
-    · intro heq
-      simp only at heq
-      rw [← heq, walKeys_removed.2] at hr
-      cases hr
-
 theorem firstNonEmpty_head (r : Rec) (k : Str) (ks t : List Str) (hk : ks = k :: t) (h : lookupStr r k ≠ []) :
     firstNonEmpty r ks = lookupStr r k := by
   subst hk
   simp [firstNonEmpty, h]
 
-theorem rowCb_eq (san : Str → Str) (now : Int) (db meas : Str) (kvs : List (Str × Val))
-    (hdb : db ≠ []) (hm : meas ≠ [])
-    (hres : ∀ p ∈ kvs, removedKeys.contains p.1 = false) :
-    rowCb san now ([(walDbKey, .str db), (walMeasKey, .str meas)] ++ kvs) =
-      ingestCols san now db meas (kvs.map fun p => (p.1, [p.2])) := by
-  have hlm : lookupStr ([(walDbKey, Val.str db), (walMeasKey, Val.str meas)] ++ kvs) walMeasKey = meas := by
-    simp [lookupStr, List.lookup_cons, walKeys_ne]
-  have hld : lookupStr ([(walDbKey, Val.str db), (walMeasKey, Val.str meas)] ++ kvs) walDbKey = db := by
-    simp [lookupStr]
-  have h1 : firstNonEmpty ([(walDbKey, Val.str db), (walMeasKey, Val.str meas)] ++ kvs) measKeys = meas := by
+def keepCol (p : Str × List Val) : Bool := !removedKeys.contains p.1
+
+/-- the WAL record of row i (routing keys written last) and what the row callback makes of it: the measurement
+and database of the request, and the one-row columns of every column the callback does not remove -/
+theorem rowCb_mkRec (san : Str → Str) (now : Int) (db meas : Str) (cols : Cols) (i : Nat)
+    (hdb : db ≠ []) (hm : meas ≠ []) (hnd : nodupKeys (cols.map (·.1)) = true) :
+    rowCb san now (mkRec db meas cols i) =
+      ingestCols san now db meas ((cols.filter keepCol).map fun p => (p.1, [p.2.getD i .null])) := by
+  have hkvs : setAll [] (cols.map fun p => (p.1, p.2.getD i Val.null)) = cols.map fun p => (p.1, p.2.getD i Val.null) := by
+    have := setAll_fresh (cols.map fun p => (p.1, p.2.getD i Val.null)) [] (by
+      have : (cols.map fun p => (p.1, p.2.getD i Val.null)).map (·.1) = cols.map (·.1) := by simp [List.map_map]
+      rw [this]; exact hnd) (by intro _ _ q hq; simp at hq)
+    simpa using this
+  have hrec : mkRec db meas cols i =
+      recSet (recSet (cols.map fun p => (p.1, p.2.getD i Val.null)) walDbKey (.str db)) walMeasKey (.str meas) := by
+    unfold mkRec mkRecG
+    simp only [walKeys_last, if_true, hkvs]
+  rw [hrec]
+  generalize hK : (cols.map fun p => (p.1, p.2.getD i Val.null)) = kvs
+  have hlm : lookupStr (recSet (recSet kvs walDbKey (.str db)) walMeasKey (.str meas)) walMeasKey = meas := by
+    simp [lookupStr, lookup_recSet_same]
+  have hne : (walDbKey == walMeasKey) = false := by decide
+  have hld : lookupStr (recSet (recSet kvs walDbKey (.str db)) walMeasKey (.str meas)) walDbKey = db := by
+    simp [lookupStr, lookup_recSet_other _ _ _ _ hne, lookup_recSet_same]
+  have h1 : firstNonEmpty (recSet (recSet kvs walDbKey (.str db)) walMeasKey (.str meas)) measKeys = meas := by
     rw [firstNonEmpty_head _ walMeasKey measKeys measKeys.tail measKeys_head (by rw [hlm]; exact hm), hlm]
-  have h2 : firstNonEmpty ([(walDbKey, Val.str db), (walMeasKey, Val.str meas)] ++ kvs) dbKeys = db := by
+  have h2 : firstNonEmpty (recSet (recSet kvs walDbKey (.str db)) walMeasKey (.str meas)) dbKeys = db := by
     rw [firstNonEmpty_head _ walDbKey dbKeys dbKeys.tail dbKeys_head (by rw [hld]; exact hdb), hld]
-  have h3 : recCols ([(walDbKey, Val.str db), (walMeasKey, Val.str meas)] ++ kvs) = kvs.map fun p => (p.1, [p.2]) := by
+  have h3 : recCols (recSet (recSet kvs walDbKey (.str db)) walMeasKey (.str meas)) =
+      (cols.filter keepCol).map fun p => (p.1, [p.2.getD i .null]) := by
     unfold recCols
-    have hf : (kvs.filter fun p => !(removedKeys.contains p.1)) = kvs := by
-      apply List.filter_eq_self.2
-      intro p hp
-      have := hres p hp
-      simp only [List.contains_eq_mem, decide_eq_false_iff_not] at this
-      simpa using this
-    simp only [List.filter_append, List.filter_cons, walKeys_removed.1, walKeys_removed.2, Bool.not_true,
-      List.filter_nil, hf]
-    simp
+    rw [filter_recSet_removed (fun k => !removedKeys.contains k) _ walMeasKey _ (by rw [walKeys_removed.2]; rfl),
+      filter_recSet_removed (fun k => !removedKeys.contains k) _ walDbKey _ (by rw [walKeys_removed.1]; rfl), ← hK]
+    rw [List.filter_map, List.map_map]
+    rfl
   unfold rowCb
   simp only [h1, h2, h3, hm, hdb, if_false]
+
+theorem nodupKeys_filter (f : Str × List Val → Bool) : ∀ (l : Cols), nodupKeys (l.map (·.1)) = true →
+    nodupKeys ((l.filter f).map (·.1)) = true
+  | [], _ => rfl
+  | p :: l, h => by
+    have h' := nodupKeys_cons (by simpa using h)
+    have ih := nodupKeys_filter f l h'.2
+    by_cases hf : f p = true
+    · simp only [List.filter_cons, hf, if_true, List.map_cons, nodupKeys, Bool.and_eq_true, Bool.not_eq_true']
+      refine ⟨?_, ih⟩
+      have hnot : ¬ p.1 ∈ l.map (·.1) := by
+        have := h'.1
+        simpa using this
+      simp only [List.contains_eq_mem, decide_eq_false_iff_not, List.mem_map, not_exists, not_and]
+      intro q hq heq
+      exact hnot (List.mem_map.2 ⟨q, (List.mem_filter.1 hq).1, heq⟩)
+    · simp only [List.filter_cons, hf]
+      exact ih
+
+theorem lookup_filter (f : Str × List Val → Bool) (k : Str) : ∀ (l : Cols),
+    (∀ p ∈ l, p.1 = k → f p = true) → (l.filter f).lookup k = l.lookup k
+  | [], _ => rfl
+  | (a, b) :: l, h => by
+    have ih := lookup_filter f k l (fun p hp => h p (List.mem_cons_of_mem _ hp))
+    by_cases hf : f (a, b) = true
+    · simp only [List.filter_cons, hf, if_true, List.lookup_cons, ih]
+    · simp only [List.filter_cons, hf, List.lookup_cons]
+      have : (k == a) = false := by
+        have : ¬ a = k := fun e => hf (h (a, b) (List.mem_cons_self ..) e)
+        simpa using fun e => this e.symm
+      simp [this, ih]
+
+theorem keep_of_visible (p : Str × List Val) (h : visible p.1 = true ∨ p.1 = kTime) : keepCol p = true := by
+  unfold keepCol
+  cases hc : removedKeys.contains p.1 with
+  | false => rfl
+  | true =>
+    have hall := List.all_eq_true.1 removed_invisible p.1 (by simpa using hc)
+    simp only [Bool.and_eq_true, Bool.not_eq_true', bne_iff_ne, ne_eq] at hall
+    rcases h with h | h
+    · rw [hall.1] at h; cases h
+    · exact absurd h hall.2
+
+theorem cellsAt_filter_keep (cols : Cols) (i : Nat) : cellsAt (cols.filter keepCol) i = cellsAt cols i := by
+  unfold cellsAt
+  rw [List.filter_filter]
+  congr 1
+  apply List.filter_congr
+  intro p _
+  by_cases hv : visible p.1 = true
+  · simp [hv, keep_of_visible p (Or.inl hv)]
+  · simp [hv]
 
 theorem cellsAt_single (cols : Cols) (i : Nat) :
     cellsAt (cols.map fun p => (p.1, [p.2.getD i .null])) 0 = cellsAt cols i := by
@@ -379,13 +455,9 @@ theorem rows_replay_eq_live (san : Str → Str) (now : Int) (db meas : Str) (col
     replayRows san now (.rows (toWalRecords db meas cols)) = .ok rows := by
   obtain ⟨hok, tc, htc, hrows⟩ := toRows_shape db meas cols rows h
   simp only [carveRows, Bool.and_eq_true, htc] at hc
-  obtain ⟨⟨⟨⟨⟨⟨hdb, hmeas⟩, hnd⟩, hres⟩, hlen⟩, hst⟩, hsan⟩ := hc
+  obtain ⟨⟨⟨⟨⟨hdb, hmeas⟩, hnd⟩, hlen⟩, hst⟩, hsan⟩ := hc
   have hdb' : db ≠ [] := by simpa using hdb
   have hmeas' : meas ≠ [] := by simpa using hmeas
-  have hres' : ∀ p ∈ cols, removedKeys.contains p.1 = false := by
-    intro p hp
-    have := (List.all_eq_true.1 hres) p hp
-    simpa using this
   have hsan' : ∀ p ∈ cols, ∀ v ∈ p.2, sanVal san v = v := by
     intro p hp v hv
     have := (List.all_eq_true.1 ((List.all_eq_true.1 hsan) p hp)) v hv
@@ -394,6 +466,17 @@ theorem rows_replay_eq_live (san : Str → Str) (now : Int) (db meas : Str) (col
     have h' : (tc.length == numRows cols) = true :=
       (List.all_eq_true.1 hlen) (kTime, tc) (lookup_mem cols kTime tc htc)
     exact (beq_iff_eq.1 h').symm
+  -- the columns the callback keeps
+  have hnd0 := nodupKeys_filter keepCol cols hnd
+  have hok0 : (cols.filter keepCol).all colOk = true := by
+    simp only [List.all_eq_true]
+    intro p hp
+    exact (List.all_eq_true.1 hok) p (List.mem_filter.1 hp).1
+  have htc0 : (cols.filter keepCol).lookup kTime = some tc := by
+    rw [lookup_filter keepCol kTime cols (fun p _ hk => keep_of_visible p (Or.inr hk))]
+    exact htc
+  have hsan0 : ∀ p ∈ cols.filter keepCol, ∀ v ∈ p.2, sanVal san v = v :=
+    fun p hp => hsan' p (List.mem_filter.1 hp).1
   subst hrows
   show seqRows (List.map (rowCb san now) (toWalRecords db meas cols)) = _
   unfold toWalRecords
@@ -402,14 +485,9 @@ theorem rows_replay_eq_live (san : Str → Str) (now : Int) (db meas : Str) (col
   intro i hi
   have hi' : i < tc.length := by simpa using hi
   simp only [Function.comp]
-  rw [mkRec_eq db meas cols i hnd hres']
-  rw [rowCb_eq san now db meas _ hdb' hmeas' (by
-    intro p' hp'
-    simp only [List.mem_map] at hp'
-    obtain ⟨p, hp, rfl⟩ := hp'
-    exact hres' p hp)]
-  rw [List.map_map]
-  exact ingest_single san now db meas cols tc i hnd hok htc hi' hst hsan'
+  rw [rowCb_mkRec san now db meas cols i hdb' hmeas' hnd]
+  rw [ingest_single san now db meas (cols.filter keepCol) tc i hnd0 hok0 htc0 hi' hst hsan0]
+  simp only [rowAt, cellsAt_filter_keep]
 
 theorem toRows_db_meas (db meas : Str) (cols : Cols) (rows : List Row) (h : toRows db meas cols = .ok rows) :
     ∀ r ∈ rows, r.db = db ∧ r.meas = meas := by
